@@ -582,8 +582,11 @@ PROPS = {
         # branch and its merge loop (repaired defects S18 / hang: corpus/C05/fixed_S18_hang.txt; each line runs under a 20 s
         # watchdog, result token HANG).  NOT run here: c05x (`predx`: cap predicates judged with a slack of 2^-50 relative to
         # r2 only, fails at the 1e-17 rad level) and c05polar (explores the KNOWN finding class `…-polar-rect`).
-        "generators": [("c05", 40000, 400000), ("c05s18", 1600, 16000)],
-        "modules": ["S2.Generated.RegionFns", "S2.Coverer", "S2.CovererRegions", "S2.CellUnion", "S2.CellID", "S2.STUV", "S2.Exact", "S2.Pred", "S2.F64"],
+        # c05hemi (defect D59, repaired; corpus/C05/fixed_D59_cap_near_hemisphere.txt): caps within 1e-7 (1e-5) rad of a
+        # hemisphere that reach over the middle of a cell edge; 16000 lines = 16 shards x 1000, about 1 s of oracle time per
+        # shard; on the unrepaired tree 28 % of the lines (52 % of the samples) are property failures.
+        "generators": [("c05", 40000, 400000), ("c05s18", 1600, 16000), ("c05hemi", 16000, 160000)],
+        "modules": ["S2.Generated.RegionFns", "S2.Coverer", "S2.CovererRegions", "S2.CapCell", "S2.CellUnion", "S2.CellID", "S2.STUV", "S2.Exact", "S2.Pred", "S2.F64"],
         "rule": "one line = one region under one coverer configuration: caps, lat-lng rectangles (polar, degenerate, antimeridian, "
                 "full, empty), cells, cell unions (with holes / far components), a user region whose CellUnionBound() is its own "
                 "cell list, convex regular loops of 3..64 vertices, star-shaped loops, polygons with a hole (and a shell inside the hole), "
@@ -599,6 +602,16 @@ PROPS = {
                 "against Go's own Rect.ContainsPoint). Shard 0 always starts with the lines of corpus/C05/known_polar_rect.txt (known "
                 "finding: Rect.IntersectsCell next to a pole, clauses `…-polar-rect` = region kind rect and offending point with "
                 "|z| >= 1 - 1e-9). "
+                "c05hemi (defect D59): caps next to a hemisphere grazing the middle of a cell edge: cell of level 0..4 (1 sample in 4: 0..6), edge k, "
+                "n = cell.Edge(k) (unit inward normal), m = Normalize((1-t) v_k + t v_k+1), t in [0.3,0.7] (1/4: [0.1,0.9]), gap = 1 - max(m.v_k, m.v_k+1), "
+                "f in [0.2,0.8], e2 log-uniform from max(1e-9, 4e-12/(gap f)) to 1e-7 (1 sample in 4: 1e-5), e1 = e2 (1 - gap f), depth = e2 - e1, "
+                "centre a = Normalize(-cos(e2) n + sin(e2) m), mIn = Normalize(cos(depth/2) m + sin(depth/2) n); 2 samples of 3: cap (a, 2 - 2 sin e1) "
+                "(radius 90 degrees - e1: reaches depth >= 4e-12 rad over the edge at m, no vertex inside; IntersectsCell must be true, coverings must "
+                "cover mIn), 1 of 3: cap (-a, 2 + 2 sin e1) (the complement, radius 90 degrees + e1: all four vertices inside, mIn outside; "
+                "ContainsCell must be false); lines: pred cap for the cell and for its neighbour across edge k with samples + m + mIn, and every "
+                "4th sample of the first kind a cov cap line (MinLevel = level of the cell, MaxLevel in {+0,+1,+3,30}, MaxCells in {1,3,4,8,20}, "
+                "points m, mIn); mIn is off the cap boundary and inside the cell by depth/2 >= 2e-12 rad, the judge's slack (2^-48 on the chord) "
+                "is 5.9e-15 rad there; every sample is emitted, nothing depends on the library's answers. "
                 "non-trivial = cov line whose Covering has at least 2 cells, or a pred line; distinct = distinct (op, arguments)",
         "nontrivial": lambda l: l.startswith("pred") or (l.startswith("cov ") and "," in l.split(" = ")[1].split(" ")[2]),
         "trusted_base": ["region predicates of Rect, Polygon, Polyline, non-convex Loop are not judged exactly: their supplied points are "
